@@ -6,7 +6,9 @@ import (
 	"context"
 	"errors"
 	"fmt"
+	"io"
 	"net"
+	"os"
 	"sort"
 	"strings"
 	"sync"
@@ -20,6 +22,7 @@ import (
 	"go.temporal.io/server/common/log"
 	"golang.org/x/sync/semaphore"
 
+	"github.com/temporalio/s2s-proxy/config"
 	"github.com/temporalio/s2s-proxy/transport/mux/session"
 )
 
@@ -31,6 +34,8 @@ import (
 //	A <conn> <sess> <ping>   the environment makes one connection attempt possible; 1/0 per stage (ping: 1 ok, 0 peer hangs up, 2 peer silent,
 //	                         3 = the peer answers the first ping and dies before the session is registered)
 //	K r|l                    a registered session dies: closed by the remote peer / locally
+//	KS                       the peer of a registered session goes silent without closing anything (header role=establisher:
+//	                         the session factory, hence the yamux keep-alive configuration, is the real constructor's)
 //	X                        the lifetime ends
 //	E                        end of scenario
 //
@@ -50,6 +55,49 @@ func (c *vmConn) Close() error {
 type vmPeer struct {
 	conn    net.Conn
 	session *yamux.Session
+	hole    *vmHoleConn
+}
+
+// vmHoleConn is the peer's end of the pipe; once silenced it swallows what it is sent and never delivers or sends anything
+// again, without closing (a peer that went away behind a firewall).
+type vmHoleConn struct {
+	net.Conn
+	silent atomic.Bool
+	gone   chan struct{}
+	once   sync.Once
+}
+
+func (c *vmHoleConn) Read(b []byte) (int, error) {
+	for {
+		if c.silent.Load() {
+			<-c.gone
+			return 0, io.EOF
+		}
+		_ = c.Conn.SetReadDeadline(time.Now().Add(500 * time.Millisecond))
+		n, err := c.Conn.Read(b)
+		if c.silent.Load() {
+			continue // whatever arrived after the peer went silent is lost
+		}
+		if err != nil && errors.Is(err, os.ErrDeadlineExceeded) {
+			continue
+		}
+		return n, err
+	}
+}
+
+func (c *vmHoleConn) Write(b []byte) (int, error) {
+	if c.silent.Load() {
+		return len(b), nil
+	}
+	return c.Conn.Write(b)
+}
+
+func (c *vmHoleConn) Close() error {
+	c.once.Do(func() { close(c.gone) })
+	if c.silent.Load() {
+		return nil // a peer that vanished sends no FIN either
+	}
+	return c.Conn.Close()
 }
 
 type vmEnv struct {
@@ -60,6 +108,7 @@ type vmEnv struct {
 	flags    []*atomic.Bool
 	peers    map[net.Conn]*vmPeer // keyed by the pool-side conn
 	cancel   context.CancelFunc
+	role     string // "" = the harness's own session factory; establisher | receiver = the real constructor's
 }
 
 func (e *vmEnv) NewConnection() (net.Conn, error) {
@@ -91,7 +140,18 @@ func (e *vmEnv) NewConnection() (net.Conn, error) {
 			cfg := yamux.DefaultConfig()
 			cfg.LogOutput = nil
 			cfg.Logger = wrapLoggerForYamux{logger: log.NewNoopLogger()}
-			s, err := yamux.Client(peerSide, cfg)
+			if e.role != "" {
+				cfg.EnableKeepAlive = false // the peer's own keep-alive must not do the pool's detecting for it
+			}
+			hole := &vmHoleConn{Conn: peerSide, gone: make(chan struct{})}
+			peer.hole = hole
+			var s *yamux.Session
+			var err error
+			if e.role == "establisher" {
+				s, err = yamux.Server(hole, cfg) // the pool side is the yamux client
+			} else {
+				s, err = yamux.Client(hole, cfg)
+			}
 			if err == nil {
 				peer.session = s
 				if vcServe != nil {
@@ -146,7 +206,22 @@ func vmScenarioWithHook(lines []string, out func(string), listener OnConnectionL
 	fmt.Sscanf(f0[1], "%d", &size)
 	ctx, cancel := context.WithCancel(context.Background())
 	env := &vmEnv{lifetime: ctx, offers: make(chan vmAttempt, 1024), byConn: map[net.Conn]vmAttempt{}, peers: map[net.Conn]*vmPeer{}, cancel: cancel}
+	for _, opt := range f0[2:] {
+		if strings.HasPrefix(opt, "role=") {
+			env.role = strings.TrimPrefix(opt, "role=")
+		}
+	}
 	builder := func(cb AddNewMux, lifetime context.Context) (MuxProvider, error) {
+		// with role=..., the session factory (and with it the yamux configuration) is the one the real constructor builds
+		var realSessionFn func(net.Conn) (*yamux.Session, error)
+		switch env.role {
+		case "establisher":
+			rp, err := NewMuxEstablisherProvider(lifetime, "verif-real", cb, size, config.TCPTLSInfo{ConnectionString: "127.0.0.1:1"}, []string{"verif", "mux", "pool"}, log.NewNoopLogger())
+			if err != nil {
+				return nil, err
+			}
+			realSessionFn = rp.(*muxProvider).sessionFn
+		}
 		return &muxProvider{
 			name:         "verif-provider",
 			connProvider: env,
@@ -156,6 +231,9 @@ func vmScenarioWithHook(lines []string, out func(string), listener OnConnectionL
 				env.mu.Unlock()
 				if a.sess == 0 {
 					return nil, errors.New("verif: yamux setup failed")
+				}
+				if realSessionFn != nil {
+					return realSessionFn(conn)
 				}
 				cfg := yamux.DefaultConfig()
 				cfg.LogOutput = nil
@@ -210,7 +288,19 @@ func vmScenarioWithHook(lines []string, out func(string), listener OnConnectionL
 			acc = 1
 		}
 		out(tag)
-		out(fmt.Sprintf("= live=%d open=%d accept=%d", len(mgr.GetMuxConnections()), env.openCount(), acc))
+		zombies := 0
+		env.mu.Lock()
+		for _, ms := range mgr.GetMuxConnections() {
+			if p := env.peers[sessionConn(ms)]; p != nil && p.hole != nil && p.hole.silent.Load() {
+				zombies++
+			}
+		}
+		env.mu.Unlock()
+		line := fmt.Sprintf("= live=%d open=%d accept=%d", len(mgr.GetMuxConnections()), env.openCount(), acc)
+		if zombies > 0 {
+			line += fmt.Sprintf(" zombie=%d", zombies)
+		}
+		out(line)
 	}
 	settle()
 	report("N")
@@ -254,6 +344,21 @@ func vmScenarioWithHook(lines []string, out func(string), listener OnConnectionL
 					}
 					env.mu.Unlock()
 				}
+			}
+		case "KS":
+			// the peer of a registered session goes silent: nothing is answered any more, nothing is closed
+			conns := mgr.GetMuxConnections()
+			ids := make([]string, 0, len(conns))
+			for id := range conns {
+				ids = append(ids, id)
+			}
+			sort.Strings(ids)
+			if len(ids) > 0 {
+				env.mu.Lock()
+				if p := env.peers[sessionConn(conns[ids[0]])]; p != nil && p.hole != nil {
+					p.hole.silent.Store(true)
+				}
+				env.mu.Unlock()
 			}
 		case "X":
 			cancel()
